@@ -49,7 +49,7 @@ int main(void)
     enc = matrixSslEncodeToOutdata(srv.ssl, (unsigned char *) "secret-after-error", 18);
     printf("matrixSslEncodeToOutdata after the event returned %d\n", enc);
 
-    if (first >= 0)
+    if (first == 0 && n == 0)
     {
         printf("VIOLATION: illegal 1-byte alert record: matrixSslReceivedData "
                "reported %d (success), not an error/close\n", first);
@@ -66,15 +66,21 @@ int main(void)
         violation = 1;
     }
 
-    /* Same event on the client side, mid-handshake is also accepted; show
-       the client post-handshake too */
+    /* Same event on the client side */
     rc = feed(&cli, evil, 6, &first);
+    n = matrixSslGetOutdata(cli.ssl, NULL);
     enc = matrixSslEncodeToOutdata(cli.ssl, (unsigned char *) "x", 1);
-    printf("client: ReceivedData=%d EncodeToOutdata=%d\n", first, enc);
-    if (first >= 0 && enc > 0)
+    printf("client: ReceivedData=%d pending alert bytes=%d EncodeToOutdata=%d\n",
+           first, n, enc);
+    if ((first == 0 && n == 0) || enc > 0)
     {
         printf("VIOLATION: client side behaves the same (rc=%d, still encrypts)\n", first);
         violation = 1;
+    }
+    if (!violation)
+    {
+        printf("OK: the 1-byte alert record ended the session on both sides "
+               "(alert queued, no further encryption)\n");
     }
     return violation ? 1 : 0;
 }
